@@ -97,8 +97,15 @@ class SFTPFile(BufferedFile):
             # are collected below as well; a write the server rejected is
             # re-raised here, at the latest.
             BufferedFile.close(self)
-            if self.pipelined and not async_:
-                self.sftp._finish_responses(self)
+            if not async_:
+                if self.pipelined or self._reqs:
+                    # (_reqs: pipelining was switched off again with
+                    # replies still outstanding)
+                    self.sftp._finish_responses(self)
+                if self._flags & self.FLAG_WRITE:
+                    # the replies may have been read on behalf of some
+                    # other request on the session in the meantime
+                    self._check_exception()
         finally:
             # Always release the server-side handle, even if a write failed.
             self._closed = True
